@@ -692,6 +692,315 @@ theorem failing_calls (tr : ℝ → Int) (uniq : List (List Int) → List (List 
       · cases e
       · cases e; exact h
 
+/-! ## pass 3: remaining branches, exact equivariance, floor semantics, entry points -/
+
+/-- **nbr_filter, the remaining branch `radius < 0`**: nothing (not even the point itself) is within a negative radius, the
+code's count is `-1` for every point, so the cloud is kept entirely for `n ≤ -1` and emptied otherwise — in particular
+for `n = 0` it differs from "at least 0 others", which is why `nbr_filter_spec` carries `0 ≤ radius`. -/
+theorem nbr_filter_neg_radius (o : Norm) (pdim : Nat) (r : ℝ) (hr : r < 0) (n : ℤ) (pts : List (Pt ℝ)) :
+    (∀ p, nbrCount o pdim r pts p = -1) ∧
+    nbrFilter o pdim r n pts = if n ≤ -1 then pts else [] := by
+  have hc : ∀ p, nbrCount o pdim r pts p = -1 := by
+    intro p
+    unfold nbrCount
+    have : pts.countP (within o pdim r p) = 0 := by
+      rw [List.countP_eq_zero]
+      intro q _
+      have := pdist_nonneg o pdim p q
+      simp only [within, le_real, decide_eq_true_eq, not_le]
+      linarith
+    rw [this]; simp
+  refine ⟨hc, ?_⟩
+  rw [nbrFilter_eq_filter]
+  by_cases h : n ≤ -1
+  · rw [if_pos h]
+    apply List.filter_eq_self.2
+    intro p _
+    rw [hc p]; simpa using h
+  · rw [if_neg h]
+    apply List.filter_eq_nil_iff.2
+    intro p _
+    rw [hc p]; simpa using h
+
+/-- **nbr_filter, exact equivariance**: after ANY re-ordering of the cloud the same points survive at their new positions:
+the mask of the re-ordered cloud is the old per-point decision read along the new order, the output is the re-ordered
+cloud filtered by the old decision. -/
+theorem nbr_filter_equivariant (o : Norm) (pdim : Nat) (r : ℝ) (n : ℤ) {pts pts' : List (Pt ℝ)} (hp : pts.Perm pts') :
+    nbrMask o pdim r n pts' = pts'.map (fun p => decide (n ≤ nbrCount o pdim r pts p)) ∧
+    nbrFilter o pdim r n pts' = pts'.filter (fun p => decide (n ≤ nbrCount o pdim r pts p)) := by
+  have h1 : (fun p => decide (n ≤ nbrCount o pdim r pts' p)) = (fun p => decide (n ≤ nbrCount o pdim r pts p)) :=
+    funext fun p => by rw [nbrCount_perm o pdim r hp p]
+  constructor
+  · unfold nbrMask; rw [h1]
+  · rw [nbrFilter_eq_filter, h1]
+
+/-- **knn_filter, exact equivariance** (ties excluded): there is ONE row function, determined by the cloud as a multiset,
+such that for every re-ordering (and every `topk` kernel) the output is that function mapped over the retained points in
+their new order; with a radius the retained points are the re-ordered cloud filtered by the old decision. -/
+theorem knn_filter_equivariant (htk : TopkContract topk) (htk' : TopkContract topk') (o : Norm) (pdim kk : Nat)
+    (radius : Option ℝ) {pts pts' : List (Pt ℝ)} (hp : pts.Perm pts') (hk : kk + 1 ≤ pts.length)
+    (D : Nat) (hD : ∀ p ∈ pts, p.length = D)
+    (hnt : ∀ p ∈ knnRetained o pdim kk radius pts, NoTies o pdim pts p) :
+    knnFilter topk o pdim kk radius pts
+      = some ((knnRetained o pdim kk radius pts).map fun p => meanCols D (nearest o pdim (kk + 1) pts p)) ∧
+    knnFilter topk' o pdim kk radius pts'
+      = some ((knnRetained o pdim kk radius pts').map fun p => meanCols D (nearest o pdim (kk + 1) pts p)) ∧
+    (∀ r, radius = some r →
+      knnRetained o pdim kk radius pts' = pts'.filter (fun p => decide ((kk : ℤ) ≤ nbrCount o pdim r pts p))) := by
+  have hk' : kk + 1 ≤ pts'.length := by rw [← hp.length_eq]; exact hk
+  have hw : ∀ {l : List (Pt ℝ)}, (∀ p ∈ l, p.length = D) → 1 ≤ l.length → width l = D := by
+    intro l hl h1
+    cases l with
+    | nil => simp at h1
+    | cons x xs => simpa [width] using hl x List.mem_cons_self
+  have hret : (knnRetained o pdim kk radius pts).Perm (knnRetained o pdim kk radius pts') := by
+    cases radius with
+    | none => exact hp
+    | some r => exact (nbr_filter_perm o pdim r (kk : ℤ) hp).2
+  have hnt' : ∀ p ∈ knnRetained o pdim kk radius pts', NoTies o pdim pts' p := by
+    intro p hp' a ha b hb
+    exact hnt p (hret.symm.subset hp') a (hp.symm.subset ha) b (hp.symm.subset hb)
+  refine ⟨?_, ?_, ?_⟩
+  · rw [knn_filter_spec topk htk o pdim kk radius pts hk hnt, hw hD (by omega)]
+  · rw [knn_filter_spec topk' htk' o pdim kk radius pts' hk' hnt', hw (fun p h => hD p (hp.symm.subset h)) (by omega)]
+    congr 1
+    apply List.map_congr_left
+    intro p hp'
+    unfold nearest
+    rw [sort_key_perm false (pdist o pdim p) hp (hnt p (hret.symm.subset hp'))]
+  · intro r hr
+    subst hr
+    exact (nbr_filter_equivariant o pdim r (kk : ℤ) hp).2
+
+/-- **every one of the `N!` orderings**: re-indexing the cloud by ANY permutation `σ` of its positions (not only a
+transposition) gives a `List.Perm` of it — so every `…_perm` / `…_equivariant` theorem above applies to it. -/
+theorem reindex_perm (pts : List (Pt ℝ)) (σ : Equiv.Perm (Fin pts.length)) :
+    (List.ofFn fun i => pts[(σ i).val]).Perm pts := by
+  have h := Equiv.Perm.ofFn_comp_perm σ (fun i : Fin pts.length => pts[i.val])
+  have e : (List.ofFn fun i : Fin pts.length => pts[i.val]) = pts := List.ofFn_getElem
+  rw [e] at h
+  exact h
+
+/-- **what a voxel is, for EVERY non-zero voxel size** (positive or negative) and every coordinate (negative ones too):
+with the real conversion `.to(int64)` = truncation toward zero, the key component of a cloud point is
+`± ⌊(x_c − min_c) / |v_c|⌋` (sign of `v_c`), i.e. the point lies in the half-open cell
+`[min_c + |v_c|·j, min_c + |v_c|·(j+1))`, `j = |κ_c|`, of the grid anchored at the per-axis minimum. -/
+theorem voxel_cell_any_sign (vox : List ℝ) (pts : List (Pt ℝ)) (p : Pt ℝ) (hp : p ∈ pts) (c : Nat) (hc : c < vox.length)
+    (hv : vox.getD c 0 ≠ 0) :
+    (voxKey truncZ vox (minp vox.length pts) p).getD c 0
+      = (if 0 < vox.getD c 0 then 1 else -1) * ⌊(p.getD c 0 - (minp vox.length pts).getD c 0) / |vox.getD c 0|⌋ ∧
+    (minp vox.length pts).getD c 0
+      + |vox.getD c 0| * (((voxKey truncZ vox (minp vox.length pts) p).getD c 0).natAbs : ℝ) ≤ p.getD c 0 ∧
+    p.getD c 0 < (minp vox.length pts).getD c 0
+      + |vox.getD c 0| * ((((voxKey truncZ vox (minp vox.length pts) p).getD c 0).natAbs : ℝ) + 1) := by
+  have hmin : (minp vox.length pts).getD c 0 = minL (pts.map fun q => q.getD c 0) := by
+    unfold minp
+    rw [List.getD_eq_getElem _ _ (by simpa using hc)]
+    simp
+  have hle : minL (pts.map fun q => q.getD c 0) ≤ p.getD c 0 :=
+    minL_le _ (List.mem_map.2 ⟨p, hp, rfl⟩)
+  have hkey : (voxKey truncZ vox (minp vox.length pts) p).getD c 0
+      = truncZ ((p.getD c 0 - (minp vox.length pts).getD c 0) / vox.getD c 0) := by
+    unfold voxKey
+    rw [List.getD_eq_getElem _ _ (by simpa using hc)]
+    simp
+  rw [hkey, hmin]
+  set m := minL (pts.map fun q => q.getD c 0)
+  set v := vox.getD c 0
+  have hw : 0 ≤ p.getD c 0 - m := by linarith
+  have ha : 0 < |v| := abs_pos.2 hv
+  rw [truncZ_div _ _ hw hv]
+  set y := (p.getD c 0 - m) / |v| with hy
+  have hy0 : 0 ≤ y := div_nonneg hw ha.le
+  have hf0 : 0 ≤ ⌊y⌋ := Int.floor_nonneg.2 hy0
+  have hnat : (((if 0 < v then (1 : ℤ) else -1) * ⌊y⌋).natAbs : ℝ) = (⌊y⌋ : ℝ) := by
+    have : ((if 0 < v then (1 : ℤ) else -1) * ⌊y⌋).natAbs = ⌊y⌋.natAbs := by
+      split_ifs <;> simp
+    rw [this]
+    obtain ⟨n, hn⟩ := Int.eq_ofNat_of_zero_le hf0
+    rw [hn]; simp
+  refine ⟨rfl, ?_, ?_⟩
+  · rw [hnat]
+    have := (le_div_iff₀ ha).1 (Int.floor_le y)
+    linarith
+  · rw [hnat]
+    have := (div_lt_iff₀ ha).1 (Int.lt_floor_add_one y)
+    linarith
+
+/-- **two cloud points share a voxel iff they share the floor cell in every coordinate** (any non-zero sizes) -/
+theorem voxKey_eq_iff (vox : List ℝ) (pts : List (Pt ℝ)) (p q : Pt ℝ) (hp : p ∈ pts) (hq : q ∈ pts)
+    (hv : ∀ c, c < vox.length → vox.getD c 0 ≠ 0) :
+    voxKey truncZ vox (minp vox.length pts) p = voxKey truncZ vox (minp vox.length pts) q ↔
+      ∀ c, c < vox.length →
+        ⌊(p.getD c 0 - (minp vox.length pts).getD c 0) / |vox.getD c 0|⌋
+          = ⌊(q.getD c 0 - (minp vox.length pts).getD c 0) / |vox.getD c 0|⌋ := by
+  have hlen : ∀ r : Pt ℝ, (voxKey truncZ vox (minp vox.length pts) r).length = vox.length := by
+    intro r; simp [voxKey]
+  have hsgn : ∀ c, ((if 0 < vox.getD c 0 then (1 : ℤ) else -1)) ≠ 0 := by
+    intro c; split_ifs <;> norm_num
+  constructor
+  · intro h c hc
+    have e1 := (voxel_cell_any_sign vox pts p hp c hc (hv c hc)).1
+    have e2 := (voxel_cell_any_sign vox pts q hq c hc (hv c hc)).1
+    rw [h, e2] at e1
+    exact (mul_left_cancel₀ (hsgn c) e1).symm
+  · intro h
+    apply List.ext_getElem
+    · rw [hlen, hlen]
+    · intro c h1 h2
+      have hc : c < vox.length := by rw [hlen] at h1; exact h1
+      have e1 := (voxel_cell_any_sign vox pts p hp c hc (hv c hc)).1
+      have e2 := (voxel_cell_any_sign vox pts q hq c hc (hv c hc)).1
+      rw [List.getD_eq_getElem _ _ h1] at e1
+      rw [List.getD_eq_getElem _ _ h2] at e2
+      rw [e1, e2, h c hc]
+
+/-- **the occupied voxels partition the cloud**: every point is counted in exactly one of the member lists whose
+centroids (or members) `voxel_filter` returns — the member counts add up to `N`. -/
+theorem voxel_members_partition (tr : ℝ → Int) (uniq : List (List Int) → List (List Int)) (hu : UniqContract uniq)
+    (vox : List ℝ) (pts : List (Pt ℝ)) :
+    ((uniq (voxKeys tr vox pts)).map fun kx =>
+        (pts.filter fun p => decide (voxKey tr vox (minp vox.length pts) p = kx)).length).sum = pts.length :=
+  sum_countP_cover (voxKey tr vox (minp vox.length pts)) _ (hu.nodup _) pts
+    (fun p hp => ((hu _).2 _).2 (List.mem_map.2 ⟨p, hp, rfl⟩))
+
+/-- **the exact guard of the inverse law.** `pixel2point` reads only `fx, fy, cx, cy`; `point2pixel` uses the whole matrix.
+For intrinsics with non-zero focal lengths and a skew entry `s`, pixel → point → pixel is the identity for ALL pixels and
+depths **iff `s = 0`** — the zero-skew (pinhole) form assumed by `pixel_point_inverse` is necessary, not a convenience. -/
+theorem pixel_point_inverse_iff_no_skew (tiny fx fy cx cy s : ℝ) (ht : 0 < tiny) (ht1 : tiny ≤ 1) (hfx : fx ≠ 0) (hfy : fy ≠ 0) :
+    (∀ u v d : ℝ, tiny ≤ |d| → ∃ P : Vec3 ℝ, pixel2point (skewK fx fy cx cy s) u v d = some P ∧
+        point2pixel tiny (skewK fx fy cx cy s) none P = [u, v]) ↔ s = 0 := by
+  constructor
+  · intro h
+    obtain ⟨P, h1, h2⟩ := h cx (cy + 1) 1 (by simpa using ht1)
+    have hP : P = ⟨((cx - cx) * 1) / fx, ((cy + 1 - cy) * 1) / fy, 1⟩ := by
+      unfold pixel2point at h1
+      simp only [skewK, le_real, k0_real, Bool.and_eq_true, decide_eq_true_eq] at h1
+      have e1 : ¬ (fx ≤ 0 ∧ 0 ≤ fx) := fun h => hfx (le_antisymm h.1 h.2)
+      have e2 : ¬ (fy ≤ 0 ∧ 0 ≤ fy) := fun h => hfy (le_antisymm h.1 h.2)
+      rw [if_neg e1, if_neg e2] at h1
+      exact (Option.some.inj h1).symm
+    subst hP
+    have hden : homoDen tiny (0 * ((cx - cx) * 1 / fx) + 0 * ((cy + 1 - cy) * 1 / fy) + 1 * 1) = 1 := by
+      rw [homoDen_eq]; · ring
+      · have : (0 * ((cx - cx) * 1 / fx) + 0 * ((cy + 1 - cy) * 1 / fy) + 1 * 1 : ℝ) = 1 := by ring
+        rw [this]; simpa using ht1
+    simp only [point2pixel, homo2cart, skewK, Mat3.mulVec, Vec3.dot, Vec3.toList, List.getLastD_cons,
+      List.getLastD_nil, List.dropLast, List.map_cons, List.map_nil, hden, List.cons.injEq, and_true] at h2
+    have := h2.1
+    field_simp at this
+    linarith
+  · intro hs
+    subst hs
+    intro u v d hd
+    obtain ⟨P, h1, _, h3⟩ := pixel_point_inverse tiny fx fy cx cy u v d ht hfx hfy hd
+    exact ⟨P, h1, h3⟩
+
+/-- **the clamp branch of the projection** (`|z| < tiny`): `homo2cart` divides by `± tiny` instead of `z`, so the inverse
+law needs `tiny ≤ |depth|` exactly as stated -/
+theorem point2pixel_pinhole_clamped (tiny fx fy cx cy : ℝ) (p : Vec3 ℝ) (hz : |p.z| < tiny) :
+    point2pixel tiny (pinhole fx fy cx cy) none p =
+      [(fx * p.x + cx * p.z) / ((if p.z < 0 then -1 else 1) * tiny),
+       (fy * p.y + cy * p.z) / ((if p.z < 0 then -1 else 1) * tiny)] := by
+  have hden : homoDen tiny (0 * p.x + 0 * p.y + 1 * p.z) = (if p.z < 0 then -1 else 1) * tiny := by
+    have e : (0 * p.x + 0 * p.y + 1 * p.z : ℝ) = p.z := by ring
+    rw [e, homoDen_clamped tiny p.z hz]
+  simp only [point2pixel, homo2cart, pinhole, Mat3.mulVec, Vec3.dot, Vec3.toList, List.getLastD_cons,
+    List.getLastD_nil, List.dropLast, List.map_cons, List.map_nil, hden]
+  congr 1
+  · congr 1; ring
+  · congr 1; congr 1; ring
+
+/-- **`homo2cart(cart2homo(p)) = p` for both dtypes, no side condition** (`finfo.tiny` is a constant of the model) -/
+theorem homo_cart_api (dt : Dtype) (p : List ℝ) : homo2cartApi dt (cart2homo p) = p :=
+  homo_cart _ (finfoTiny_pos_le_one dt).2 p
+
+/-- the inverse law through the public entry point, for both dtypes -/
+theorem pixel_point_inverse_api (dt : Dtype) (fx fy cx cy u v d : ℝ) (hfx : fx ≠ 0) (hfy : fy ≠ 0)
+    (hd : (finfoTiny dt : ℝ) ≤ |d|) :
+    ∃ P : Vec3 ℝ, pixel2point (pinhole fx fy cx cy) u v d = some P ∧ P.z = d ∧
+      point2pixelApi dt (pinhole fx fy cx cy) none P = [u, v] :=
+  pixel_point_inverse _ fx fy cx cy u v d (finfoTiny_pos_le_one dt).1 hfx hfy hd
+
+/-- **argument defaulting and documented checks of `nbr_filter`**: the call is rejected exactly when `pdim` exceeds the
+row width; otherwise it is the core with `pdim` resolved (`None` ↦ row width), the mask is returned iff asked for. -/
+theorem nbr_filter_api_spec (pts : List (Pt ℝ)) (n : ℤ) (r : ℝ) (pdim : Option Nat) (o : Norm) (rm : Bool) :
+    (nbrFilterApi pts n r pdim o rm = none ↔ ∃ p, pdim = some p ∧ width pts < p) ∧
+    (∀ pd, resolvePdim pdim pts = some pd →
+      nbrFilterApi pts n r pdim o rm
+        = some (nbrFilter o pd r n pts, if rm then some (nbrMask o pd r n pts) else none)) ∧
+    (pdim = none → resolvePdim pdim pts = some (width pts)) := by
+  refine ⟨?_, ?_, ?_⟩
+  · unfold nbrFilterApi resolvePdim
+    cases pdim with
+    | none => simp
+    | some p => by_cases h : width pts < p <;> simp [h]
+  · intro pd h; simp [nbrFilterApi, h]
+  · intro h; subst h; rfl
+
+/-- the default `pdim` uses every column: on a cloud of uniform width `D`, distances over the first `D` entries are the
+distances over whole rows -/
+theorem pdist_default (o : Norm) (pts : List (Pt ℝ)) (D : Nat) (hD : ∀ p ∈ pts, p.length = D) (p q : Pt ℝ)
+    (hp : p ∈ pts) (hq : q ∈ pts) : pdist o D p q = dist o p q :=
+  pdist_full o D p q (le_of_eq (hD p hp)) (le_of_eq (hD q hq))
+
+/-- **`knn_filter` through its entry point**: rejected iff `pdim` exceeds the width or the cloud has fewer than `k+1`
+points; otherwise the core with `pdim` resolved -/
+theorem knn_filter_api_spec (pts : List (Pt ℝ)) (kk : Nat) (pdim : Option Nat) (radius : Option ℝ) (o : Norm) :
+    (knnFilterApi topk pts kk pdim radius o = none ↔
+      (∃ p, pdim = some p ∧ width pts < p) ∨ pts.length < kk + 1) ∧
+    (∀ pd, resolvePdim pdim pts = some pd → knnFilterApi topk pts kk pdim radius o = knnFilter topk o pd kk radius pts) := by
+  constructor
+  · unfold knnFilterApi resolvePdim
+    cases pdim with
+    | none => simp [knn_filter_defined]
+    | some p =>
+      by_cases h : width pts < p
+      · simp [h]
+      · simp [h, knn_filter_defined]
+  · intro pd h; simp [knnFilterApi, h]
+
+/-- **`voxel_filter` through its entry point**: rejected exactly by the documented checks (`D ≥ vdim`, every size non-zero)
+and for the empty cloud (`torch.min` raises); otherwise the branch selected by `random` -/
+theorem voxel_filter_api_spec (tr : ℝ → Int) (uniq : List (List Int) → List (List Int)) (argsort : List Nat → List Nat)
+    (rnd : List Nat) (pts : List (Pt ℝ)) (vox : List ℝ) (random : Bool) :
+    (voxelFilterApi tr uniq argsort rnd pts vox random = none ↔
+      width pts < vox.length ∨ (∃ v ∈ vox, v = 0) ∨ pts = []) ∧
+    (¬ width pts < vox.length → (∀ v ∈ vox, v ≠ 0) → pts ≠ [] →
+      voxelFilterApi tr uniq argsort rnd pts vox random
+        = some (if random then voxelRandom tr uniq argsort rnd vox pts else voxelFilter tr uniq vox pts)) := by
+  have hz : ∀ v : ℝ, isZero v = true ↔ v = 0 := by
+    intro v
+    simp only [isZero, le_real, k0_real, Bool.and_eq_true, decide_eq_true_eq]
+    exact ⟨fun h => le_antisymm h.1 h.2, fun h => by rw [h]; simp⟩
+  have hany : vox.any isZero = true ↔ ∃ v ∈ vox, v = 0 := by
+    simp only [List.any_eq_true, hz]
+  constructor
+  · unfold voxelFilterApi
+    by_cases h1 : width pts < vox.length
+    · simp [h1]
+    · by_cases h2 : vox.any isZero = true
+      · have h0 : (0 : ℝ) ∈ vox := by obtain ⟨v, hv, e⟩ := hany.1 h2; exact e ▸ hv
+        simp [h1, h2, h0]
+      · have h0 : (0 : ℝ) ∉ vox := fun h => h2 (hany.2 ⟨0, h, rfl⟩)
+        cases pts with
+        | nil => simp [h1, h2]
+        | cons x xs => simp [h1, h2, h0]
+  · intro h1 h2 h3
+    unfold voxelFilterApi
+    have h2' : ¬ vox.any isZero = true := fun h => by
+      obtain ⟨v, hv, e⟩ := hany.1 h; exact h2 v hv e
+    cases pts with
+    | nil => exact absurd rfl h3
+    | cons x xs => simp [h1, h2']
+
+/-- `reprojerr` accepts exactly the three documented reductions -/
+theorem reprojerr_api_defined (dt : Dtype) (K : Mat3 ℝ) (ext : Option (SE3 ℝ)) (red : String) (p : Vec3 ℝ) (px : List ℝ) :
+    reprojerrApi dt K ext red p px = none ↔ red ≠ "none" ∧ red ≠ "sum" ∧ red ≠ "norm" := by
+  unfold reprojerrApi
+  split <;> simp_all
+
+
 /-! ## non-vacuity: the hypotheses used above are satisfiable by non-trivial values -/
 
 /-- a `topk` kernel meeting the contract exists: the driver's stand-in (stable merge sort) -/
@@ -724,5 +1033,20 @@ example : (0 : ℝ) < 2⁻¹ ^ 126 ∧ (2⁻¹ ^ 126 : ℝ) ≤ 1 ∧ (2 : ℝ) 
     calc (2⁻¹ ^ 126 : ℝ) ≤ 2⁻¹ ^ 1 := pow_le_pow_of_le_one (by norm_num) (by norm_num) (by norm_num)
       _ = -(-1 / 2) := by norm_num
 example : (⟨⟨1, 2, 3⟩, ⟨0, 0, 1, 0⟩⟩ : SE3 ℝ).q.normSq = 1 := by simp [Quat.normSq]
+
+/-- pass 3: the truncation is toward zero on both sides; a negative radius, a negative voxel size and a skewed camera
+are genuine inputs of the new theorems; with skew 1 the inverse law really fails -/
+example : truncZ (7 / 2) = 3 ∧ truncZ (-7 / 2) = -3 := by
+  constructor
+  · unfold truncZ; rw [if_pos (by norm_num)]; rw [Int.floor_eq_iff]; norm_num
+  · unfold truncZ; rw [if_neg (by norm_num)]; rw [Int.ceil_eq_iff]; norm_num
+example : ((-1 : ℝ) < 0) ∧ ((-1 / 2 : ℝ) ≠ 0) := by norm_num
+example : ¬ ∀ u v d : ℝ, (2⁻¹ : ℝ) ≤ |d| → ∃ P : Vec3 ℝ, pixel2point (skewK 2 3 1 1 1) u v d = some P ∧
+    point2pixel 2⁻¹ (skewK 2 3 1 1 1) none P = [u, v] := by
+  intro h
+  have := (pixel_point_inverse_iff_no_skew 2⁻¹ 2 3 1 1 1 (by norm_num) (by norm_num) (by norm_num) (by norm_num)).1 h
+  norm_num at this
+example : ∃ σ : Equiv.Perm (Fin 3), σ 0 = 1 ∧ σ 1 = 2 ∧ σ 2 = 0 :=
+  ⟨(Equiv.swap 0 1).trans (Equiv.swap 0 2), by decide, by decide, by decide⟩
 
 end PP.Cloud
